@@ -42,6 +42,9 @@ type Config struct {
 	// close causes (C11): applied when both are complete (or at chooser's discretion in arbitrary mode)
 	Causes []Cause `json:"causes"`
 	Seed   uint64  `json:"seed"`
+	// E2E (C07 end to end): application payloads are generated JSON documents instead of the fixed
+	// numbered payload; what the peer's reader gets is compared semantically with what was sent
+	E2E bool `json:"e2e"`
 }
 
 type Cause struct {
@@ -75,6 +78,7 @@ type side struct {
 	sentOrder   []string // uids in the order the data frames were accepted by the transport
 	activity    chan struct{}
 	causeIssued bool
+	docR        *vc.Rand // E2E: source of the generated documents
 }
 
 type outcome struct {
@@ -127,6 +131,9 @@ func run(t *testing.T, cfg *Config, wd *vc.Watchdog) (res result) {
 		// provider that does not wait
 		C := mk("C", false, cfg.WaitC, false, cfg.WaitC, idC, stored(cfg.IDCofS, idS))
 		S.peer, C.peer = C, S
+		if cfg.E2E {
+			S.docR, C.docR = vc.NewRand(cfg.Seed, "e2e-docs-S", 0), vc.NewRand(cfg.Seed, "e2e-docs-C", 0)
+		}
 		for _, x := range []*side{S, C} {
 			x := x
 			x.W.OnWrite = poke
@@ -382,6 +389,10 @@ func (x *side) send() {
 	uid := fmt.Sprintf("%s-%d", strings.ToLower(x.Who), n)
 	p, want := simkit.SpinePayload(uid, n)
 	x.mu.Lock()
+	if x.docR != nil {
+		p = e2ePayload(x.docR, uid, n)
+		want = p
+	}
 	x.wants[uid] = want
 	x.mu.Unlock()
 	x.L.Add(x.Who, "send", n, false, uid)
